@@ -305,6 +305,20 @@ def fresh(kind, seed=0):
 		m = Net("bn", seed).eval()
 		m.body[1].train()
 		return m
+	if kind == "grads":
+		# a model in the middle of gradient accumulation: its parameters
+		# carry .grad tensors that the next optimiser step will use
+		m = Net("dls", seed).eval()
+		g = torch.Generator().manual_seed(seed + 11)
+		x = torch.randn(3, 4, L, generator=g, dtype=torch.float64)
+		out = m(x)
+		(out[0] if isinstance(out, (tuple, list)) else out).sum().backward()
+		return m
+	if kind == "bn-train":
+		# handed over in training mode altogether (straight out of a
+		# training loop): every forward the call makes must still leave the
+		# running statistics alone
+		return Net("bn", seed).train()
 	return Net(kind, seed).eval()
 
 
@@ -531,6 +545,9 @@ def plan(tier, seed):
 		if op in ("predict", "predict_args", "ism", "marginalize", "greedy",
 			"pairwise", "dls_tensor_refs"):
 			kinds = tuple(kinds) + ("bn-mixed",)
+		if op in ("dls", "dls_tensor_refs", "dls_dinuc_args_raw", "predict",
+			"ism", "marginalize_dls", "product_dls"):
+			kinds = tuple(kinds) + ("bn-train", "grads")
 		if op in ("predict_bf16", "ism_f16"):
 			kinds = ("f32",)
 		for kind in kinds:
@@ -562,7 +579,8 @@ def plan(tier, seed):
 	per = 12 if quick else 40
 	for i in range(0, len(hs), per):
 		units.append({"cls": "histories", "hs": hs[i:i + per],
-			"model": ("bn", "dls", "alias", "bn-mixed")[(i // per) % 4],
+			"model": ("bn", "dls", "alias", "bn-mixed", "bn-train", "grads")[
+				(i // per) % 6],
 			"weight": per / 3})
 	return units
 
